@@ -427,6 +427,25 @@ class Tr:
             body = self.block(rest)
             self.c.effect_vars = self.c.effect_vars[:-1]
             return f"let {cn} := {t} in\n  {body}"
+        if (isinstance(s, ast.If) and not s.orelse and len(s.body) == 1 and isinstance(s.body[0], ast.Assign)
+                and isinstance(s.test, ast.Compare) and len(s.test.ops) == 1 and isinstance(s.test.ops[0], ast.Is)
+                and isinstance(s.test.left, ast.Name) and isinstance(s.test.comparators[0], ast.Constant)
+                and s.test.comparators[0].value is None and len(s.body[0].targets) == 1
+                and isinstance(s.body[0].targets[0], ast.Name) and s.body[0].targets[0].id == s.test.left.id
+                and self.c.env.get(s.test.left.id, (None, None))[1] == "optint"):
+            # `if x is None: x = e` — the default of an optional integer: x is a plain int afterwards
+            nm = s.test.left.id
+            cn, _ = self.c.env[nm]
+            t, ty = self.expr(s.body[0].value)
+            if ty != "int":
+                fail(s, f"default of an optional int has type {ty}")
+            self.c.fresh += 1
+            nn = f"{nm}_{self.c.fresh}"
+            saved_env = dict(self.c.env)
+            self.c.env[nm] = (nn, "int")
+            body = self.block(rest)
+            self.c.env = saved_env
+            return f"let {nn} := match {cn} with Some v => v | None => {t} end in\n  {body}"
         if isinstance(s, ast.If):
             t, tt = self.expr(s.test)
             if tt != "bool":
@@ -1123,6 +1142,216 @@ def gen_util():
     return "\n\n".join(out) + "\n"
 
 
+# ---------------------------------------------------------------- bb run: the plan of API calls
+CLI_OPTS = {"merge_criterion": ("(ro_merge o)", "cname"), "tolerance": ("(ro_tol o)", "f64"),
+            "threshold": ("(ro_thr o)", "f64"), "branching_factor": ("(ro_bf o)", "int"),
+            "refine_merge_criterion": ("(ro_refine_merge o)", "cname"),
+            "refine_threshold_change": ("(ro_change o)", "f64"), "refine_num": ("num", "int"),
+            "refine_rounds": ("rounds", "int"), "recluster_rounds": ("(ro_recluster_rounds o)", "int"),
+            "save_tree": ("(ro_save_tree o)", "bool")}
+
+
+def gen_cli():
+    """cli._run: (1) the normalisation of --refine-num / --refine-rounds, translated; (2) the sequence of
+    calls the command makes on the estimator it creates (the `plan`), obtained by walking the statements of
+    _run that mention `tree`, for the lean variant.  Every such statement must have a recognised shape;
+    anything else is a failed translation.  Console / timer / file statements are not part of the plan."""
+    tree = ast.parse((REPO / "bblean/cli.py").read_text())
+    fn = find_func(tree, "_run")
+    body = list(fn.body)
+
+    def mentions(node, name):
+        return any(isinstance(n, ast.Name) and n.id == name for n in ast.walk(node))
+    first_tree = next((i for i, st in enumerate(body) if mentions(st, "tree")), None)
+    if first_tree is None:
+        raise Unsupported("_run: no estimator")
+    # ---- (1) option normalisation: the `if` statements before the estimator exists that assign the options
+    norm = [st for st in body[:first_tree] if isinstance(st, ast.If)
+            and any(isinstance(n, ast.Name) and isinstance(n.ctx, ast.Store) and n.id in ("refine_rounds", "refine_num")
+                    for n in ast.walk(st))]
+    for st in body:
+        if st in norm:
+            continue
+        for n in ast.walk(st):
+            if isinstance(n, ast.Name) and isinstance(n.ctx, ast.Store) and n.id in CLI_OPTS:
+                raise Unsupported(f"line {n.lineno}: _run re-assigns the option {n.id} outside the normalisation")
+    ret = ast.Return(value=ast.Tuple(elts=[ast.Name(id="refine_num", ctx=ast.Load()),
+                                            ast.Name(id="refine_rounds", ctx=ast.Load())], ctx=ast.Load()))
+    stmts = norm + [ret]
+    for st in stmts:
+        ast.fix_missing_locations(st)
+    ctx = Ctx({"refine_num": ("refine_num", "int"), "refine_rounds": ("refine_rounds", "optint")},
+              "tuple:int,int", {}, {}, False)
+    norm_t = Tr(ctx).block(stmts)
+    # ---- input files: sorted by name, or the single file
+    for st in ast.walk(fn):
+        if isinstance(st, ast.Assign) and any(isinstance(t, ast.Name) and t.id == "input_files" for t in st.targets):
+            if ast.unparse(st.value) not in ("sorted(input_.glob('*.npy'))", "[input_]"):
+                raise Unsupported(f"line {st.lineno}: input_files = {ast.unparse(st.value)}")
+
+    # ---- (2) the plan
+    def ex(e):
+        """option expressions: (coq term, type)"""
+        if isinstance(e, ast.Name) and e.id in CLI_OPTS:
+            return CLI_OPTS[e.id]
+        if isinstance(e, ast.Constant) and isinstance(e.value, int) and not isinstance(e.value, bool):
+            return str(e.value), "int"
+        if isinstance(e, ast.BinOp) and isinstance(e.op, ast.Add):
+            a, ta = ex(e.left)
+            b, tb = ex(e.right)
+            if ta == tb == "f64":
+                return f"({a} + {b})%float", "f64"
+            if ta == tb == "int":
+                return f"({a} + {b})", "int"
+        if isinstance(e, ast.Compare) and len(e.ops) == 1:
+            a, ta = ex(e.left)
+            b, tb = ex(e.comparators[0])
+            if ta == tb == "int":
+                op = e.ops[0]
+                if isinstance(op, ast.NotEq):
+                    return f"negb ({a} =? {b})", "bool"
+                if isinstance(op, ast.Eq):
+                    return f"({a} =? {b})", "bool"
+                if isinstance(op, ast.Gt):
+                    return f"({b} <? {a})", "bool"
+        if isinstance(e, ast.BoolOp):
+            parts = [ex(v) for v in e.values]
+            if all(t == "bool" for _, t in parts):
+                return (" || " if isinstance(e.op, ast.Or) else " && ").join(p for p, _ in parts), "bool"
+        raise Unsupported(f"line {getattr(e, 'lineno', '?')}: _run: option expression {ast.unparse(e)}")
+
+    def kwargs(call, want):
+        got = {k.arg: k.value for k in call.keywords}
+        if set(got) != set(want):
+            raise Unsupported(f"line {call.lineno}: keyword arguments {sorted(got)} (expected {sorted(want)})")
+        return got
+
+    def variant_branch(st):
+        """for a test on `variant`, the branch taken by the lean variant; None if not such a test"""
+        t = ast.unparse(st.test)
+        if t in ("'lean' not in variant", "variant != 'lean'"):
+            return st.orelse
+        if t in ("'lean' in variant", "variant == 'lean'"):
+            return st.body
+        if mentions(st.test, "variant"):
+            raise Unsupported(f"line {st.lineno}: test on variant: {t}")
+        return None
+
+    def tree_call(call, loopvar):
+        m = call.func.attr
+        if m == "fit":
+            kwargs(call, ["n_features", "input_is_packed", "max_fps"])
+            if not (len(call.args) == 1 and isinstance(call.args[0], ast.Name) and call.args[0].id == loopvar):
+                raise Unsupported(f"line {call.lineno}: fit of something else than the file of this iteration")
+            return ["FIT"]
+        if m == "set_merge":
+            kw = kwargs(call, ["tolerance", "threshold"])
+            if len(call.args) != 1:
+                raise Unsupported(f"line {call.lineno}: set_merge arguments")
+            (nm, t0), (tol, t1), (thr, t2) = ex(call.args[0]), ex(kw["tolerance"]), ex(kw["threshold"])
+            if (t0, t1, t2) != ("cname", "f64", "f64"):
+                raise Unsupported(f"line {call.lineno}: set_merge argument types")
+            return [f"[ASetMerge {nm} {tol} {thr}]"]
+        if m == "refine_inplace":
+            kw = kwargs(call, ["input_is_packed", "n_largest"])
+            if not (len(call.args) == 1 and isinstance(call.args[0], ast.Name) and call.args[0].id == "input_files"):
+                raise Unsupported(f"line {call.lineno}: refinement reads something else than the input files")
+            n, tn = ex(kw["n_largest"])
+            if tn != "int":
+                raise Unsupported(f"line {call.lineno}: n_largest")
+            return [f"[ARefine {n}]"]
+        if m == "recluster_inplace":
+            kwargs(call, ["shuffle"])
+            return ["[ARecluster]"]
+        if m == "save":
+            return ["[ASaveTree]"]
+        if m == "delete_internal_nodes":
+            return []
+        if m in ("get_cluster_mol_ids", "get_centroids_mol_ids") and not call.args and not call.keywords:
+            return ["[ASave]"]
+        raise Unsupported(f"line {call.lineno}: call tree.{m}")
+
+    def join(segs):
+        out = []
+        for sg in segs:
+            if sg == "[ASave]" and out and out[-1] == "[ASave]":
+                continue
+            out.append(sg)
+        return " ++ ".join(out) if out else "[]"
+
+    def plan(stmts, loopvar=None):
+        segs = []
+        for st in stmts:
+            if not mentions(st, "tree"):
+                continue
+            if isinstance(st, ast.With):
+                if any(mentions(it.context_expr, "tree") for it in st.items):
+                    raise Unsupported(f"line {st.lineno}: estimator used in a with-item")
+                segs += plan(st.body, loopvar)
+            elif isinstance(st, ast.If):
+                if mentions(st.test, "tree"):
+                    raise Unsupported(f"line {st.lineno}: test on the estimator")
+                br = variant_branch(st)
+                if br is not None:
+                    segs += plan(br, loopvar)
+                elif ast.unparse(st.test) == "save_centroids":
+                    a, b = join(plan(st.body, loopvar)), join(plan(st.orelse, loopvar))
+                    if a != b:
+                        raise Unsupported(f"line {st.lineno}: --save-centroids changes the calls made: {a} / {b}")
+                    segs.append(a)
+                else:
+                    c, tc = ex(st.test)
+                    if tc != "bool":
+                        raise Unsupported(f"line {st.lineno}: test")
+                    segs.append(f"(if {c} then {join(plan(st.body, loopvar))} else {join(plan(st.orelse, loopvar))})")
+            elif isinstance(st, ast.For):
+                if st.orelse or not isinstance(st.target, ast.Name):
+                    raise Unsupported(f"line {st.lineno}: loop shape")
+                if isinstance(st.iter, ast.Name) and st.iter.id == "input_files":
+                    if plan(st.body, st.target.id) != ["FIT"]:
+                        raise Unsupported(f"line {st.lineno}: the loop over the input files does not fit each once")
+                    segs.append("map AFitFile (seq 0 nfiles)")
+                elif (isinstance(st.iter, ast.Call) and isinstance(st.iter.func, ast.Name) and st.iter.func.id == "range"
+                      and len(st.iter.args) == 1):
+                    n, tn = ex(st.iter.args[0])
+                    inner = plan(st.body, loopvar)
+                    if tn != "int" or len(inner) != 1 or not (inner[0].startswith("[") and ";" not in inner[0]):
+                        raise Unsupported(f"line {st.lineno}: repeated block is not one call")
+                    segs.append(f"repeat ({inner[0][1:-1]}) (Z.to_nat {n})")
+                else:
+                    raise Unsupported(f"line {st.lineno}: loop over {ast.unparse(st.iter)}")
+            elif (isinstance(st, ast.Assign) and len(st.targets) == 1 and isinstance(st.targets[0], ast.Name)
+                  and st.targets[0].id == "tree"):
+                v = st.value
+                if not (isinstance(v, ast.Call) and isinstance(v.func, ast.Name) and v.func.id == "BitBirch" and not v.args):
+                    raise Unsupported(f"line {st.lineno}: estimator construction")
+                kw = kwargs(v, ["branching_factor", "threshold", "merge_criterion", "tolerance"])
+                (m, t0), (tol, t1), (thr, t2), (bf, t3) = (ex(kw["merge_criterion"]), ex(kw["tolerance"]),
+                                                           ex(kw["threshold"]), ex(kw["branching_factor"]))
+                if (t0, t1, t2, t3) != ("cname", "f64", "f64", "int"):
+                    raise Unsupported(f"line {st.lineno}: constructor argument types")
+                segs.append(f"[ACtor {m} {tol} {thr} {bf}]")
+            else:
+                # an expression / assignment statement: every use of the estimator is a method call
+                calls = [n for n in ast.walk(st) if isinstance(n, ast.Call) and isinstance(n.func, ast.Attribute)
+                         and isinstance(n.func.value, ast.Name) and n.func.value.id == "tree"]
+                uses = sum(1 for n in ast.walk(st) if isinstance(n, ast.Name) and n.id == "tree")
+                if not isinstance(st, (ast.Expr, ast.Assign)) or uses != len(calls):
+                    raise Unsupported(f"line {st.lineno}: the estimator is used outside a method call")
+                for c in calls:
+                    segs += tree_call(c, loopvar)
+        return segs
+    plan_t = join(plan(body[first_tree:]))
+    if "FIT" in plan_t:
+        raise Unsupported("_run: a fit outside the loop over the input files")
+    hdr = ("(* GENERATED by /verif/translator/py2coq.py from bblean/cli.py (_run) — do not edit. *)\n"
+           "From BB Require Import Model.Base Gen.NumpySem Model.Cli.\nFrom Coq Require Import String.\n"
+           "Open Scope Z_scope.\n")
+    return (hdr + "\nDefinition norm_refine (refine_num : Z) (refine_rounds : option Z) :=\n  " + norm_t + ".\n\n"
+            "Definition run_plan (o : run_opts) (nfiles : nat) : list api_call :=\n"
+            "  let '(num, rounds) := norm_refine (ro_refine_num o) (ro_refine_rounds o) in\n  " + plan_t + ".\n")
+
+
 def write_if_changed(path: Path, text: str):
     if path.exists() and path.read_text() == text:
         return False
@@ -1163,6 +1392,7 @@ def main():
     attempt("GUtil", gen_util)
     attempt("GMr", gen_mr)
     attempt("GMrDel", gen_mr_del)
+    attempt("GCli", gen_cli)
     for k, v in status.items():
         print(f"translate {k}: {v}")
     return 0 if all(v == "ok" for v in status.values()) else 1
